@@ -16,6 +16,7 @@ _CODE = {}
 # construction path of function / gate / interrupt nodes: "ctor" = FunctionNode / RouteNode / IfElseNode / InterruptNode called
 # directly; "deco" = through the public decorators @node / @route / @ifelse / @interrupt (which take the node name from the function)
 VIA = "ctor"
+DECOYS = True
 
 
 def canon(v):
@@ -573,7 +574,16 @@ def build(program, h, nodes_out=None):
         kw["strict_types"] = True
     g = Graph(nodes, **kw)
     if program.get("bind"):
+        g0 = g
         g = g.bind(**{k: canon(v) for k, v in program["bind"].items()})
+        if DECOYS:
+            # relatives derived from the same objects and bound differently (a later sibling of g and a child of g) must not
+            # influence g: every program with bindings is built this way, the relatives are never used again
+            try:
+                g0.bind(**{k: ("decoy-sibling", k) for k in program["bind"]})
+                g.bind(**{k: ("decoy-child", k) for k in program["bind"]})
+            except Exception:  # noqa: BLE001 - a decoy that cannot be derived is simply not there
+                pass
     if program.get("entry"):
         g = g.with_entrypoint(*program["entry"])
     if program.get("select") is not None:
